@@ -145,7 +145,6 @@ structure FirstFacts (id1 id2 loc : Bytes) (t₀ s₁ : Target) (n : Bytes) (d :
   holds : Holds [id1, id2] s₁ n d X
   own : RunidOwn s₁ n
   locok : n ≠ loc → LocOk [id1, id2] s₁ loc d X
-  other : n = loc → Carrier id2 t₀ n d X → Carrier id2 s₁ n d X
 
 theorem first_facts {id1 id2 loc : Bytes} {t₀ : Target} {n r : Bytes} {d : Nat} {X : Int} {now : Int}
     (P : UpdPre id1 id2 loc t₀ n r d X now) {c : CpInfo}
@@ -168,7 +167,7 @@ theorem first_facts {id1 id2 loc : Bytes} {t₀ : Target} {n r : Bytes} {d : Nat
     intro db nm
     show (applyReq t₀ (Req.hsetCp d loc _)).cps db nm = _
     rw [applyReq_hsetCp_cps, hsetMany_cpEntries _ _ _ _ P.h1]; rfl
-  refine ⟨rfl, ?_, ?_, ?_, ?_⟩
+  refine ⟨rfl, ?_, ?_, ?_⟩
   · by_cases hnl : n = loc
     · apply P.holds.update _ d
       · intro db hdb; rw [hcps1]; simp [hdb]
@@ -215,20 +214,15 @@ theorem first_facts {id1 id2 loc : Bytes} {t₀ : Target} {n r : Bytes} {d : Nat
           rw [(mem_cpPre he').2.2.2.1 hs.2]; exact P.h1q
         · exact hfr.ridok d e he' hs
       · exact hfr.ridok db e he hs
-  · intro hnl hcar
-    unfold Carrier at hcar ⊢
-    rw [hcps1]; simp only [hnl, and_self, if_true]
-    obtain ⟨e1, e2⟩ := written_other (fs := t₀.cps d loc) (c := c') (now := now) P.hne
-    rw [e1, e2]; rw [hnl] at hcar; exact hcar
 
 theorem FirstFacts.refl {id1 id2 loc : Bytes} {t₀ : Target} {n r : Bytes} {d : Nat} {X : Int} {now : Int}
     (P : UpdPre id1 id2 loc t₀ n r d X now) : FirstFacts id1 id2 loc t₀ t₀ n d X :=
-  ⟨rfl, P.holds, P.own, P.fresh, fun _ h => h⟩
+  ⟨rfl, P.holds, P.own, P.fresh⟩
 
 /-! ### the crash states of UpdateCheckpoint -/
 
-theorem unmapped_applyAll_updRest {n oldId id1 x : Bytes} {o2 : List Nat} (rs : List Req) :
-    ∀ {t : Target}, (∀ q ∈ rs, q ∈ updRest n oldId id1 o2) → Unmapped t.hash x →
+theorem unmapped_applyAll_updRest {n oldId id1 loc x : Bytes} {o2 : List Nat} (rs : List Req) :
+    ∀ {t : Target}, (∀ q ∈ rs, q ∈ updRest n oldId id1 loc o2) → Unmapped t.hash x →
       Unmapped (applyAll t rs).hash x := by
   induction rs with
   | nil => intro t _ h; exact h
@@ -286,7 +280,7 @@ theorem crash_class (ver : Bytes) {id1 id2 loc : Bytes} {t₀ : Target} {n r : B
     refine ⟨hh, hH, ?_⟩
     intro hu
     rw [hshape]; simp only [hbr, if_true, List.take_succ_cons, applyAll, List.foldl_cons]
-    apply unmapped_applyAll_updRest (n := n) (oldId := c.runId) (id1 := r') (o2 := o2)
+    apply unmapped_applyAll_updRest (n := n) (oldId := c.runId) (id1 := r') (loc := n') (o2 := o2)
     · intro q hq; exact mem_take hq
     · show Unmapped (hashSet t₀.hash r' n') id2
       exact hu.hashSet (fun h => P.hne h.symm)
@@ -338,16 +332,19 @@ theorem read_local (ver : Bytes) {a b : Bytes} {t : Target} {loc : Bytes} {d : N
   obtain ⟨c', h1', h2', _, _⟩ := getCheckpoint_of_holds ver h.swap oS hoS
   exact ⟨⟨c, h1, h2⟩, ⟨c', h1', h2'⟩⟩
 
+/-- a state of kind (A) satisfies the preconditions again: the operation can be run on it -/
+theorem FirstFacts.updPre {id1 id2 loc : Bytes} {t₀ t₁ : Target} {n r : Bytes} {d : Nat} {X : Int}
+    {now now' : Int} (F : FirstFacts id1 id2 loc t₀ t₁ n d X) (P : UpdPre id1 id2 loc t₀ n r d X now)
+    (hnow' : -(2^63 : Int) ≤ now' ∧ now' < 2^63) : UpdPre id1 id2 loc t₁ n r d X now' :=
+  ⟨P.hne, P.h1, P.h1q, P.h2q, P.hloc, by rw [F.hash]; exact P.hn, P.hn0, F.holds, F.own, F.locok, hnow'⟩
+
 /-- `UpdateCheckpoint(loc, [p, q])` run to completion on a state of kind (A) -/
 theorem rerun_on_first {id1 id2 loc : Bytes} {t₀ t₁ : Target} {n r : Bytes} {d : Nat} {X : Int}
     {now now' : Int} (ver : Bytes) (P : UpdPre id1 id2 loc t₀ n r d X now)
     (F : FirstFacts id1 id2 loc t₀ t₁ n d X) (hnow' : -(2^63 : Int) ≤ now' ∧ now' < 2^63)
-    (o1 o2 : List Nat) (ho1 : d ∈ o1)
-    (horph : n = loc → ridOf [id1, id2] (t₁.cps d n) = id1 → Carrier id2 t₁ n d X) :
+    (o1 o2 : List Nat) (ho1 : d ∈ o1) :
     Holds [id1, id2] (applyAll t₁ (updateReqs ver t₁ loc [id1, id2] o1 o2 now')) loc d X :=
-  update_complete_holds ver
-    (⟨P.hne, P.h1, P.h1q, P.h2q, P.hloc, by rw [F.hash]; exact P.hn, P.hn0, F.holds, F.own, F.locok,
-      horph, hnow'⟩ : UpdPre id1 id2 loc t₁ n r d X now') o1 o2 ho1
+  update_complete_holds ver (F.updPre P hnow') o1 o2 ho1
 
 /-- the same with the ids in the other order, when the hash maps the second id (`r = id2`) -/
 theorem rerun_on_first_swapped {id1 id2 loc : Bytes} {t₀ t₁ : Target} {n : Bytes} {d : Nat} {X : Int}
@@ -366,7 +363,51 @@ theorem rerun_on_first_swapped {id1 id2 loc : Bytes} {t₀ t₁ : Target} {n : B
     exact hnl ▸ F.holds
   · exact (update_complete_holds ver
       (⟨fun h => P.hne h.symm, h2, P.h2q, P.h1q, P.hloc, hg, P.hn0, F.holds.swap, F.own,
-        fun h => (F.locok h).swap, fun h => absurd h hnl, hnow'⟩ :
+        fun h => (F.locok h).swap, hnow'⟩ :
         UpdPre id2 id1 loc t₁ n id2 d X now') o1 o2 ho1).swap
+
+/-! ### any number of attempts that do not complete -/
+
+theorem UpdPre.renow {id1 id2 loc : Bytes} {t : Target} {n r : Bytes} {d : Nat} {X now now' : Int}
+    (P : UpdPre id1 id2 loc t n r d X now) (h : -(2^63 : Int) ≤ now' ∧ now' < 2^63) :
+    UpdPre id1 id2 loc t n r d X now' :=
+  ⟨P.hne, P.h1, P.h1q, P.h2q, P.hloc, P.hn, P.hn0, P.holds, P.own, P.fresh, h⟩
+
+/-- a state the operation can be (re)run on: the preconditions hold, or it is done -/
+def Rerunnable (id1 id2 loc : Bytes) (t : Target) (d : Nat) (X : Int) : Prop :=
+  (∃ n r, UpdPre id1 id2 loc t n r d X 0) ∨
+  (getHash t.hash [id1, id2] = some (loc, id1) ∧ Holds [id1, id2] t loc d X)
+
+theorem rerunnable_attempt (ver : Bytes) {id1 id2 loc : Bytes} {t : Target} {d : Nat} {X : Int}
+    (h : Rerunnable id1 id2 loc t d X) (a : Attempt) (ho : d ∈ a.o1)
+    (hnow : -(2^63 : Int) ≤ a.now ∧ a.now < 2^63) :
+    Rerunnable id1 id2 loc (applyAll t ((updateReqs ver t loc [id1, id2] a.o1 a.o2 a.now).take a.k)) d X := by
+  rcases h with ⟨n, r, P⟩ | ⟨hh, hH⟩
+  · have P' := P.renow hnow
+    rcases crash_class ver P' a.o1 a.o2 ho a.k with F | ⟨hh, hH, _⟩
+    · exact Or.inl ⟨n, r, F.updPre P' (by omega)⟩
+    · exact Or.inr ⟨hh, hH⟩
+  · rw [updateReqs_noop ver a.o1 a.o2 a.now hh]
+    simp only [List.take_nil, applyAll, List.foldl_nil]
+    exact Or.inr ⟨hh, hH⟩
+
+theorem rerunnable_attempts (ver : Bytes) {id1 id2 loc : Bytes} {d : Nat} {X : Int} (as : List Attempt) :
+    ∀ {t : Target}, Rerunnable id1 id2 loc t d X →
+      (∀ a ∈ as, d ∈ a.o1 ∧ (-(2^63 : Int) ≤ a.now ∧ a.now < 2^63)) →
+      Rerunnable id1 id2 loc (afterAttempts ver loc [id1, id2] t as) d X := by
+  induction as with
+  | nil => intro t h _; exact h
+  | cons a rest ih =>
+    intro t h hall
+    have ha := hall a (List.mem_cons_self ..)
+    exact ih (rerunnable_attempt ver h a ha.1 ha.2) (fun a' ha' => hall a' (List.mem_cons_of_mem _ ha'))
+
+theorem rerunnable_complete (ver : Bytes) {id1 id2 loc : Bytes} {t : Target} {d : Nat} {X : Int}
+    (h : Rerunnable id1 id2 loc t d X) (o1 o2 : List Nat) (ho : d ∈ o1) (now : Int)
+    (hnow : -(2^63 : Int) ≤ now ∧ now < 2^63) :
+    Holds [id1, id2] (applyAll t (updateReqs ver t loc [id1, id2] o1 o2 now)) loc d X := by
+  rcases h with ⟨n, r, P⟩ | ⟨hh, hH⟩
+  · exact update_complete_holds ver (P.renow hnow) o1 o2 ho
+  · rw [updateReqs_noop ver o1 o2 now hh]; exact hH
 
 end GunYu.Checkpoint
